@@ -163,6 +163,23 @@ def check_tree(data: dict, lab: Labels) -> None:
             got = tree.get_first_ancestor_of_type(b.of(n), arg, exact_type=exact)
             require(got is exp, "get_first_ancestor_of_type", f"node {n.uid} classes {sel} exact={exact}")
 
+    # an abstract marker class that node classes are registered with (isinstance holds, no MRO entry),
+    # alone and next to an ordinary class
+    marker = M.load().Marker
+    for n in nodes:
+        for extra in ((), ("LeafA",), ("Seq",)):
+            exp = None
+            for u in chain(n.uid):
+                cn = by_uid[u].cls
+                if any(M.is_subclass(cn, s) for s in (*M.MARKED, *extra)):
+                    exp = b.live[u]
+                    break
+            arg2: Any = marker if not extra else (*(M.cls(c) for c in extra), marker)
+            got = tree.get_first_ancestor_of_type(b.of(n), arg2)
+            require(got is exp, "get_first_ancestor_of_type", f"node {n.uid}: registered marker class {extra}")
+            got_x = tree.get_first_ancestor_of_type(b.of(n), marker, exact_type=True)
+            require(got_x is None, "get_first_ancestor_of_type", f"node {n.uid}: exact type of an abstract marker")
+
     # xpath: walk it
     seen: dict[str, int] = {}
     for n in nodes:
